@@ -49,41 +49,88 @@ def dispatch(chk: Check) -> None:
         if isinstance(n, ast.Assign) and isinstance(n.value, ast.Subscript) and norm(n.value.value) == mparam and prog.fold(mr.module, n.value.slice) == 'intent':
             subj = norm(n.targets[0])
     chk.ob('TAB-dispatch', mr, subj is not None, 'the RPC handler dispatches on the intent stored under INTENT_KEY of the message', kind='rpc-subject')
-    lad = intent_ladder(prog, mr, subj or 'intent')
+    from ..decisions import paths_under, value_on_path
+    ic = prog.cls('process_comms.Intent')
+    consts = {m: prog.fold(ic.module, v, ic) for m, v in ic.attrs.items()}
 
-    def control_branch(f, body, target, args, msgvar) -> Tuple[bool, Optional[ast.Call]]:
-        rets = [s for s in body if isinstance(s, ast.Return)]
-        if len(rets) != 1 or not isinstance(rets[0].value, ast.Call) or last_name(rets[0].value) != '_schedule_rpc':
-            return False, None
-        c = rets[0].value
-        ok = c.args and norm(c.args[0]) == target and len(c.args) == 1
-        kws = {k.arg: k.value for k in c.keywords}
-        if args:
-            v = kws.get('msg_text')
-            ok = ok and v is not None and isinstance(v, ast.Call) and norm(v.func) == f'{msgvar}.get' and prog.fold(f.module, v.args[0]) == 'message' and set(kws) == {'msg_text'}
-        else:
-            ok = ok and not kws
-        return bool(ok), c
+    def effective(path, idx, call):
+        """(callee text, {keyword: text}) of a call with locals replaced by the values they hold on this path and ``**{...}`` spelled out."""
+        c2 = value_on_path(path, idx, call)
+        kws = {}
+        for k in c2.keywords:
+            if k.arg is None and isinstance(k.value, ast.Dict) and all(isinstance(x, ast.Constant) for x in k.value.keys):
+                for kk, vv in zip(k.value.keys, k.value.values):
+                    kws[kk.value] = norm(vv)
+            else:
+                kws[k.arg or '**'] = norm(k.value)
+        return [norm(x) for x in c2.args], kws
 
-    for intent, (target, args) in CONTROL.items():
-        ok, c = control_branch(mr, lad.get(intent, []), target, args, mparam)
-        chk.ob('TAB-dispatch', mr, ok, f'RPC intent {intent} schedules {target}({", ".join(a + "=<message text>" for a in args)}) -- the same call a direct caller makes', node=c,
-               kind=f'rpc:{intent}', expr=None if c is not None else intent)
-    st = lad.get('STATUS', [])
-    ok = any(isinstance(s, ast.Expr) and isinstance(s.value, ast.Call) and norm(s.value.func) == 'self.get_status_info' for s in st) and any(isinstance(s, ast.Return) for s in st)
-    chk.ob('TAB-dispatch', mr, ok, 'RPC intent STATUS replies with get_status_info', kind='rpc:STATUS', expr='STATUS')
-    last = mr.node.body[-1]
-    chk.ob('TAB-dispatch', mr, isinstance(last, ast.Raise), 'an unknown intent raises (is not executed as something else)', kind='rpc-unknown-raises')
+    def table(f, subject):
+        """intent member (or None for 'none of them') -> list of outcomes, one per path: ('call', args, kws) / ('return', text) / ('raise',)"""
+        fff = chk.ctx.facts.analyse(f)
+        out = {}
+        for member in list(consts) + [None]:
+            val = {f'{subject} == {consts[m]!r}': (m == member) for m in consts}
+            res = []
+            for path in paths_under(fff, val, frozen=[subject]):
+                sched = [(i, c) for i, m_ in enumerate(path) for c in _calls(m_) if last_name(c) == '_schedule_rpc']
+                if path[-1] is fff.cfg.raise_exit:
+                    res.append(('raise',))
+                elif sched:
+                    i, c = sched[-1]
+                    ret_ok = path[i].kind == 'return' and path[i].ast.value is c
+                    args_, kws_ = effective(path, i, c)
+                    res.append(('call', tuple(args_), tuple(sorted(kws_.items())), ret_ok, c))
+                else:
+                    rets = [m_ for m_ in path if m_.kind == 'return']
+                    status = [c for m_ in path for c in _calls(m_) if norm(c.func) == 'self.get_status_info']
+                    res.append(('status', norm(rets[-1].ast.value) if rets and rets[-1].ast.value is not None else 'None', norm(status[0].args[0]) if status and status[0].args else None) if status
+                               else ('return', norm(rets[-1].ast.value) if rets and rets[-1].ast.value is not None else 'None'))
+            out[member] = res
+        return out
+
+    subj = subj or 'intent'
+    mtab = table(mr, subj)
     br = prog.func('processes.Process.broadcast_receive')
-    blad = intent_ladder(prog, br, br.params[4])  # subject
+    btab = table(br, br.params[4])  # subject
+
+    def text_expr(msgvar):
+        return f"{msgvar}.get('message', None)"
+
+    def control_ok(f, outcomes, target, args, msgvar):
+        if not outcomes or any(o[0] != 'call' for o in outcomes):
+            return False, None
+        ok = True
+        for o in outcomes:
+            _, a_, k_, ret_ok, c = o
+            k_ = dict(k_)
+            ok &= ret_ok and list(a_) == [target]
+            if args:
+                v = k_.get('msg_text', '')
+                folded = v.replace('process_comms.MESSAGE_TEXT_KEY', "'message'").replace('MESSAGE_TEXT_KEY', "'message'")
+                ok &= set(k_) == {'msg_text'} and folded == text_expr(msgvar)
+            else:
+                ok &= not k_
+        return bool(ok), outcomes[0][4]
+
+    rpc_shape = {}
     for intent, (target, args) in CONTROL.items():
-        ok, c = control_branch(br, blad.get(intent, []), target, args, br.params[2])
+        ok, c = control_ok(mr, mtab.get(intent), target, args, mparam)
+        rpc_shape[intent] = [(o[1], o[2]) for o in mtab.get(intent, []) if o[0] == 'call']
+        chk.ob('TAB-dispatch', mr, ok, f'RPC intent {intent} schedules {target}({", ".join(a + "=<message text>" for a in args)}) -- the same call a direct caller makes (decision table over the '
+               f'intent: {len(mtab.get(intent, []))} path(s))', node=c, kind=f'rpc:{intent}', expr=None if c is not None else intent)
+    st = mtab.get('STATUS', [])
+    chk.ob('TAB-dispatch', mr, bool(st) and all(o[0] == 'status' and o[1] == o[2] for o in st), 'RPC intent STATUS replies with get_status_info', kind='rpc:STATUS', expr='STATUS')
+    none = mtab.get(None, [])
+    chk.ob('TAB-dispatch', mr, bool(none) and all(o[0] == 'raise' for o in none), 'an unknown intent raises (is not executed as something else)', kind='rpc-unknown-raises')
+    for intent, (target, args) in CONTROL.items():
+        ok, c = control_ok(br, btab.get(intent), target, args, br.params[2])
         chk.ob('TAB-dispatch', br, ok, f'broadcast subject {intent} schedules {target} with the same arguments as the RPC variant', node=c, kind=f'broadcast:{intent}', expr=None if c is not None else intent)
-    # sibling agreement: for each control intent the two handlers schedule the same call
-    for intent in CONTROL:
-        a = [norm(s) for s in lad.get(intent, [])]
-        b = [norm(s).replace(br.params[2], mparam) for s in blad.get(intent, [])]
-        chk.ob('SIB-dispatch', br, a == b and bool(a), f'RPC and broadcast handlers agree for {intent}', kind=f'agree:{intent}', expr=intent)
+        # sibling agreement: for each control intent the two handlers schedule the same call
+        b_shape = [(o[1], tuple((k, v.replace(br.params[2], mparam)) for k, v in o[2])) for o in btab.get(intent, []) if o[0] == 'call']
+        chk.ob('SIB-dispatch', br, bool(b_shape) and set(b_shape) == set(rpc_shape.get(intent, [])), f'RPC and broadcast handlers agree for {intent}', kind=f'agree:{intent}', expr=intent)
+    bn = btab.get(None, []) + btab.get('STATUS', [])
+    chk.ob('TAB-dispatch', br, bool(bn) and all(o[0] == 'return' and o[1] == 'None' for o in bn), 'any other broadcast subject is ignored (nothing is scheduled)', kind='broadcast-other-ignored')
     # MessageBuilder
     mb = prog.cls('process_comms.MessageBuilder')
     for name in ('play', 'pause', 'kill', 'status'):
@@ -273,6 +320,12 @@ def subscriptions(chk: Check) -> None:
     detail = ''
     if len(flt) == 1:
         subj = {k.arg: k.value for k in flt[0].keywords}.get('subject')
+        if isinstance(subj, ast.Attribute) and norm(subj.value) in ('self', 'cls', init.owner_class.name if init.owner_class else ''):
+            la = init.owner_class.lookup_attr(subj.attr) if init.owner_class is not None else None   # the pattern kept as a class constant
+            subj = la[1] if la is not None else subj
+        elif isinstance(subj, ast.Name):
+            r_ = prog.resolve(init.module, subj)
+            subj = r_[2] if isinstance(r_, tuple) and r_[0] == 'const' and len(r_) > 2 else subj
         if isinstance(subj, ast.Call) and norm(subj.func) == 're.compile' and subj.args and isinstance(subj.args[0], ast.Constant):
             pat = re.compile(subj.args[0].value)
             intents = {m: prog.fold(prog.module('process_comms'), v) for m, v in prog.cls('process_comms.Intent').attrs.items()}
